@@ -147,8 +147,18 @@ def small_strings(ctx):
     return out
 
 
+def doc_lines(s):
+    """the lines of a text as documented: every line break ends a line; a text ending with a break
+    has an empty last line (independent of do_indent's append-a-newline quirk)"""
+    keep = s.splitlines(keepends=True)
+    lines = s.splitlines()
+    if not lines or keep[-1] != lines[-1]:
+        lines.append("")
+    return lines
+
+
 def spec_indent(s, ind, first, blank):
-    lines = (s + "\n").splitlines()
+    lines = doc_lines(s)
     out = []
     for i, line in enumerate(lines):
         put = first if i == 0 else (blank or line != "")
@@ -179,12 +189,16 @@ def tie_lines(ctx, env):
     for (f, s, args), m in zip(meta, out):
         case = {"filter": f, "s": s, "args": list(args)}
         of = None
+        sig = None
         try:
             if f == "indent":
                 r = env.call_filter("indent", s, args)
                 text = "OK " + cps(r)
                 if r != spec_indent(s, " " * args[0] if isinstance(args[0], int) else args[0], args[1], args[2]):
                     of = "result is not the lines of the text with the indentation inserted where documented"
+                    if s.endswith("\r"):
+                        of = "a trailing lone carriage return is dropped (a trailing LF or CRLF is kept as a line break)"
+                        sig = "C23:indent-trailing-lone-cr"
                 nontriv = len((s + "\n").splitlines()) >= 2
             elif f == "center":
                 r = env.call_filter("center", s, args)
@@ -214,7 +228,9 @@ def tie_lines(ctx, env):
                  key=(f, s, args) if nontriv else None)
         ctx.count(f)
         if of:
-            ctx.reject(case, of, None)
+            ctx.reject(case, of, sig)
+            if text != m:
+                ctx.model_mismatch("K-rt do_" + f, case, m, text, None)
         elif text != m:
             ctx.model_mismatch("K-rt do_" + f if f != "splitlines" else "K-rt str.splitlines model", case, m, text, None)
         else:
@@ -505,6 +521,47 @@ def wrappers(ctx, env, jinja2):
                     ctx.validated()
             except Exception as ex:  # noqa: BLE001
                 ctx.reject({"filter": name, "s": s}, f"raised {type(ex).__name__}", None)
+    # urlencode of mappings / pair iterables: "&".join(quote_plus(k)=quote_plus(v)) over the ITEMS, for every
+    # Mapping type (the documented parameter type is Mapping), and of scalars that print differently but compare
+    # equal (1 / True / 1.0), in one process and in both orders
+    import collections
+    import types
+    from urllib.parse import quote_plus
+
+    def qs(pairs):
+        return "&".join(f"{quote_plus(str(k), safe='')}={quote_plus(str(v), safe='')}" for k, v in pairs)
+    base_maps = [{"ab": 1}, {"a b": "c&d", "x": "é/ü"}, {"abc": 1, "k": "v w"}, {}, {"k": 1}, {"page": 1, "debug": True},
+                 {"a": 1.0, "b": 1, "c": True, "d": 0, "e": False, "f": 0.0}]
+    for m in base_maps:
+        for make in (dict, lambda d: list(d.items()), lambda d: tuple(d.items()), types.MappingProxyType,
+                     collections.OrderedDict, lambda d: collections.ChainMap(d), lambda d: collections.UserDict(d)):
+            v = make(dict(m))
+            ctx.count("wrapper_urlencode_mapping")
+            ctx.case(key=("urlencode", type(v).__name__, repr(m)))
+            case = {"filter": "urlencode", "value_type": type(v).__name__, "items": [[str(k), repr(x)] for k, x in m.items()]}
+            try:
+                r = env.call_filter("urlencode", v)
+            except Exception as ex:  # noqa: BLE001
+                ctx.reject(case, f"raised {type(ex).__name__} for a {type(v).__name__} of (key, value) items", None)
+                continue
+            if r != qs(m.items()):
+                ctx.reject(case, f"returned {r!r}, the query string of the items is {qs(m.items())!r}", None)
+            else:
+                ctx.validated()
+    for seq in ((1, True, 1.0, "1"), (True, 1, 1.0), (1.0, True, 1), (0, False, 0.0, -0.0), (False, 0), (2 ** 70, float(2 ** 70))):
+        for v in seq:
+            ctx.count("wrapper_urlencode_scalar")
+            ctx.case(key=("urlencode_scalar", repr(seq), repr(v)))
+            try:
+                r = env.call_filter("urlencode", v)
+                from urllib.parse import quote
+                if r != quote(str(v), safe="/"):
+                    ctx.reject({"filter": "urlencode", "value": repr(v), "after": repr(seq)},
+                               f"returned {r!r}, expected {quote(str(v), safe='/')!r} (values quoted before: {seq!r})", None)
+                else:
+                    ctx.validated()
+            except Exception as ex:  # noqa: BLE001
+                ctx.reject({"filter": "urlencode", "value": repr(v)}, f"raised {type(ex).__name__}", None)
     for v in (42.55, 42.45, -0.5, 0.5, 1.5, 2.5, 1234.5678, 0, 7, -7.25, 1e-9, float("inf"), float("-inf"), float("nan")):
         for prec in (0, 1, 2, -1):
             for method in ("common", "ceil", "floor"):
